@@ -27,7 +27,7 @@ def run(ev, vd):
     if r.ok:
         raise ToolError("CSRTranspose does not distinguish a non-atomic slot claim (vacuous model?)")
     tr = os.path.join(BUILD, "tmp", "staticg.ndjson")
-    scratch = os.path.join(BUILD, "tmp", "staticg_files")
+    scratch = os.path.join(BUILD, "tmp", "staticg_files_%d" % os.getpid())
     os.makedirs(scratch, exist_ok=True)
     if os.path.exists(tr + ".crash"):
         os.remove(tr + ".crash")
